@@ -21,6 +21,7 @@ ASSUMPTIONS = ["node iterable yields distinct hashable labels (duplicates in `no
 QUICK_SCALE = 2.5  # quick-tier multiplier (idle 16-core timing: ~10 s at scale 1)
 STRATA = [
     ("random-small", 6000, 60000),
+    ("edited", 1500, 15000),
     ("blueprint", 6000, 60000),
     ("dag", 2200, 22000),
     ("near-dag", 2200, 22000),
@@ -81,6 +82,30 @@ def gen(stratum, rng, tier):
         p = rng.choice([0.08, 0.15, 0.25, 0.4, 0.6])
         e = gc.gnp(rng, n, p, loops=rng.choice([0, 0, 0.15]))
         return _mk(rng, n, e, lab, dup=rng.choice([0, 0.2, 0.5]))
+    if stratum == "edited":
+        # one graph object, edited between calls, queried through ONE neighbour function (a module-level def, a bound
+        # method of a long-lived object): every call is about the graph as it is now
+        a = gen("random-small", rng, tier)
+        steps = []
+        adj = {k: list(v) for k, v in a["adj"].items()}
+        nodes = list(a["nodes"])
+        for _ in range(rng.randint(1, 3)):
+            adj = {k: list(v) for k, v in adj.items()}
+            for _e in range(rng.randint(1, 3)):
+                if not nodes:
+                    break
+                u = rng.choice(nodes)
+                r = rng.random()
+                if r < 0.5:
+                    adj.setdefault(u, []).append(rng.choice(nodes))
+                elif adj.get(u):
+                    adj[u].pop(rng.randrange(len(adj[u])))
+                else:
+                    adj.setdefault(u, []).append(rng.choice(nodes))
+            steps.append(adj)
+        a["kind"] = "edited"
+        a["steps"] = steps
+        return a
     if stratum == "blueprint":
         total = rng.randint(2, 14)
         n, e = gc.blueprint(rng, gc.random_sizes(rng, total, rng.choice([1, 2, 3, 5, 8])),
@@ -455,7 +480,32 @@ def _run_exh(case, obs):
     obs.outcome(f"exhaustive-n{n}")
 
 
+def _run_edited(case, obs):
+    from vf.common import call, is_crash
+
+    nodes = case["nodes"]
+    holder = {"adj": case["adj"]}
+
+    def neighbours(v):  # the one function object every call receives
+        return list(holder["adj"].get(v, ()))
+
+    obs.nontrivial = len(nodes) >= 2
+    for k, adj in enumerate([case["adj"]] + list(case["steps"])):
+        holder["adj"] = adj
+        T = Truth(nodes, adj)
+        for name, judge in (("strongly_connected_components", judge_scc), ("topological_sort", judge_topo),
+                            ("condense", judge_condense)):
+            r = call(obs, getattr(_scc, name), list(nodes), neighbours, budget=_budget(T), what=f"{name}[edit {k}]")
+            obs.event("call.edited." + name)
+            if not is_crash(r):
+                judge(obs, r, T, f"{name} (same neighbour function, graph after edit {k})")
+        if obs.violations:
+            return
+
+
 def run(case, obs):
+    if case["kind"] == "edited":
+        return _run_edited(case, obs)
     if case["kind"] == "exh":
         _run_exh(case, obs)
     else:
